@@ -127,7 +127,9 @@ class Gen:
         return {"t": "g", "disc": self.disc("sg"), "expr": self.expr(), "groups": groups, "segs": [self.seg() for _ in range(rng.randint(0, self.branching))]}
 
     def ahb(self):
-        return {"lines": [self.group(self.depth) for _ in range(self.rng.randint(1, 3))]}
+        lines = [self.group(self.depth) for _ in range(self.rng.randint(1, 3))]
+        # maus metadata that ahbicht's results must not depend on: where each line stood in the flat AHB (None = unknown, the default)
+        return {"lines": lines, "line_index": self.rng.choice([None, "flat", "flat", "reversed"])}
 
     def cer(self, p_unknown=0.06):
         rng = self.rng
@@ -152,7 +154,24 @@ def to_maus(spec):
         return SegmentGroup(discriminator=g["disc"], ahb_expression=expr_text(g["expr"]), segments=[seg(s) for s in g["segs"]],
                             segment_groups=[grp(x) for x in g["groups"]])
 
-    return DeepAnwendungshandbuch(meta=AhbMetaInformation(pruefidentifikator="11042"), lines=[grp(g) for g in spec["lines"]])
+    ahb = DeepAnwendungshandbuch(meta=AhbMetaInformation(pruefidentifikator="11042"), lines=[grp(g) for g in spec["lines"]])
+    mode = spec.get("line_index")
+    if mode:
+        # flat-AHB order: a group's own line, then its segments, then its nested groups (as maus numbers them)
+        order = []
+
+        def walk(g):
+            order.append(g)
+            for sg in g.segments or []:
+                order.append(sg)
+            for sub in g.segment_groups or []:
+                walk(sub)
+
+        for line in ahb.lines:
+            walk(line)
+        for i, node in enumerate(order):
+            node.ahb_line_index = (i + 1) if mode == "flat" else (len(order) - i)
+    return ahb
 
 
 def set_cer(cer):
